@@ -861,6 +861,18 @@ def c10(ctx: Ctx) -> None:
         te = [e for e in g.succ[n.id] if e.label == 'exc' and e.classes and 'TimeoutError' in e.classes and e.dst.kind == 'except']
         w = find_path(g, [], growths + bounded, start_edges=te) if te else None
         retL = [x for x in g.nodes if x.kind == 'return' and isinstance(x.ast.value, ast.Name) and x.ast.value.id == L]
+        w = w or (must_pass(g, [], [g.exit, g.raise_exit], retL, start_edges=te) if te else None)
+        # what the timed read delivers joins the batch
+        def _has(e_, a_) -> bool:
+            return any((type(x).__name__, getattr(x, 'lineno', None), getattr(x, 'col_offset', None)) ==
+                       ('Await', a_.lineno, a_.col_offset) for x in ast.walk(e_))
+        joins_ = False
+        for gr_ in growths:
+            if gr_.kind == 'call' and gr_.ast.args:
+                joins_ = joins_ or _has(resolve(g, gr_, gr_.ast.args[0]), n.ast)
+        ctx.check('C10-R4', f'the item delivered by {norm(c)[:60]} is added to the batch', g.loc(n), joins_,
+                  'nothing dequeued is dropped', 'an item taken off the queue is not put into the batch: its caller is never answered',
+                  construct=construct_key(r.assemble.qualname, 'dequeued item dropped'))
         ctx.check('C10-R5', 'TimeoutError of the bounded wait ends the batch', g.loc(n), bool(te) and w is None and bool(retL),
                   'the batch is returned as it is', 'after the timeout the assembler keeps waiting/growing (or the timeout escapes)',
                   witness=render(g, w), construct=construct_key(r.assemble.qualname, 'timeout does not end batch'))
